@@ -2,7 +2,7 @@ SPECIFICATION Spec
 CONSTANTS
   Hs <- McHs
   Dyn <- McDyn
-  MaxCommits = 4
+  MaxCommits = 3
   MaxDeliver = 5
   MaxEpoch = 1
 VIEW view
